@@ -1,6 +1,6 @@
 # C06 - A suspend point never loses or duplicates a ready coroutine
 SP = 'cocls::suspend_point<void>'
-TYPES = {'SP': SP, 'EXT': SP + '::ExtData', 'CH': 'std::__n4861::coroutine_handle<void>', 'SPB': 'cocls::suspend_point<bool>', 'SPI': 'cocls::suspend_point<int>'}
+TYPES = {'SP': SP, 'EXT': SP + '::ExtData', 'CH': 'std::__n4861::coroutine_handle<void>', 'SPB': 'cocls::suspend_point<bool>', 'SPI': 'cocls::suspend_point<int>', 'SPM': 'cocls::suspend_point<c06_mv>', 'MVT': 'c06_mv'}
 NAMES = {
     'sp_add': r'^cocls::suspend_point<void>::add\(void\*\)$',
     'std_copy': r'^void\*\* std::copy<void\*\*, void\*\*>\(void\*\*, void\*\*, void\*\*\)$',
@@ -61,6 +61,8 @@ UNITS = [
     leaf('spb_await_resume', 'spb_await_resume', r'^cocls::suspend_point<bool>::await_resume\(\)$'),
     leaf('spi_ctor_from', 'spi_ctor_from', r'^cocls::suspend_point<int>::suspend_point\(cocls::suspend_point<void>&&, int\)$'),
     leaf('spi_get', 'spi_get', r'^cocls::suspend_point<int>::operator int\(\)$'),
+    leaf('spm_get', 'spm_get', r'^cocls::suspend_point<c06_mv>::operator c06_mv\(\)$'), leaf('spm_cget', 'spm_cget', r'^cocls::suspend_point<c06_mv>::operator c06_mv const\(\) const$'),
+    leaf('spm_await_resume', 'spm_await_resume', r'^cocls::suspend_point<c06_mv>::await_resume\(\)$'),
     leaf('merge_handle', 'sp_merge_handle', r'^cocls::suspend_point<void>::operator<<\(std::__n4861::coroutine_handle<void>&&\)$', {'std_copy': NAMES['std_copy']}, replace=['std_copy'], boundary=[r'^void\*\* std::copy<void\*\*']),
     leaf('end', 'sp_end', r'^cocls::suspend_point<void>::end\(\) const$'),
 ]
